@@ -403,7 +403,13 @@ def probes(ctx, res):
 
 
 def run(ctx, res):
-    if not ctx.replay:
+    grids = not ctx.replay
+    if ctx.replay:
+        try:      # a replay of a lookup / grid violation (no pipeline in it) re-runs the lookups and grids
+            grids = "case" not in json.loads(Path(ctx.replay).read_text())
+        except Exception:  # noqa: BLE001
+            grids = True
+    if grids:
         lookup_enumeration(res, full=ctx.tier == "thorough")
         operator_grid(res)
         literal_grid(res)
